@@ -6,7 +6,7 @@ from ..searchmon import RecoMon
 from . import treeshared as TS
 
 PROP = "C07"
-FAMS = ["hugeneg", "negbern", "nonpos3", "cl_negdist", "bern", "quant5", "neg", "const", "zero", "tied", "twoval", "neg", "incr", "decr", "best_first", "best_last", "noisy", "unit",
+FAMS = ["int3wide", "hugeneg", "negbern", "nonpos3", "cl_negdist", "bern", "quant5", "neg", "const", "zero", "tied", "twoval", "neg", "incr", "decr", "best_first", "best_last", "noisy", "unit",
         "large", "cl_hump", "cl_step", "drift"]
 RULE = ("DOO (default and user delta), SOO, SequOOL, StoSOO, StroquOOL, POO x3, GPO x3, PCT, VPCT on all partitions, "
         "d=1..3, T=n and T<n; reward families over-weight all-negative / all-equal / all-zero / tied values, strictly "
